@@ -21,12 +21,14 @@ pub struct TreasuryBox {
     pub api: SimApi,
     pub contract: String,
     pub time_s: u64,
+    /// sub-second part of the block time
+    pub sub_ns: u64,
 }
 
 impl TreasuryBox {
     pub fn env(&self) -> Env {
         Env {
-            block: BlockInfo { height: 10, time: Timestamp::from_seconds(self.time_s), chain_id: "sim-1".into() },
+            block: BlockInfo { height: 10, time: Timestamp::from_nanos(self.time_s * 1_000_000_000 + self.sub_ns), chain_id: "sim-1".into() },
             transaction: Some(TransactionInfo { index: 0 }),
             contract: ContractInfo { address: Addr::unchecked(&self.contract) },
         }
@@ -37,6 +39,7 @@ impl TreasuryBox {
             api: SimApi { prefix: "osmo".into() },
             contract: acct("osmo", "treasury-contract", 32),
             time_s: 1_700_000_000,
+            sub_ns: 0,
         };
         let env = b.env();
         let q = NoQuerier;
@@ -99,6 +102,8 @@ pub enum OwnStep {
     Probe(u8),
     /// advance the clock: 0..=2 => to (earliest-1, earliest, earliest+1); 3 => +1s; 4 => +1 day; 5 => +8 days
     Clock(u8),
+    /// set the sub-second part of the block time (forward only: a smaller value lands in the next second)
+    Phase(u32),
 }
 
 pub fn own_steps() -> BoxedStrategy<Vec<OwnStep>> {
@@ -109,6 +114,7 @@ pub fn own_steps() -> BoxedStrategy<Vec<OwnStep>> {
         6 => prop_oneof![2 => who(), 3 => Just(5u8)].prop_map(OwnStep::Accept),
         3 => prop_oneof![3 => who(), 1 => Just(5u8)].prop_map(OwnStep::Probe),
         7 => prop_oneof![3 => 0u8..3, 1 => 3u8..6].prop_map(OwnStep::Clock),
+        4 => prop_oneof![Just(1u32), Just(999_999_999u32), 0u32..1_000_000_000].prop_map(OwnStep::Phase),
     ];
     proptest::collection::vec(step, 4..40).boxed()
 }
@@ -159,6 +165,7 @@ pub fn check_own_case(steps: &[OwnStep], agg: &mut Agg) -> Result<(), String> {
     let mut mt = OwnModel { admin: tadmin.clone(), nominee: None, earliest: None };
     tb.time_s = e.ch.now_s();
     let mut renominated = false;
+    let mut subsecond = false;
     let mut boundary = false;
     let mut handovers = 0;
     let mut trace = String::new();
@@ -175,9 +182,18 @@ pub fn check_own_case(steps: &[OwnStep], agg: &mut Agg) -> Result<(), String> {
                     _ => now + 3600,
                 };
                 if target > now {
-                    e.ch.time_ns = target * 1_000_000_000;
+                    // the sub-second part is kept: deadlines are whole seconds, block times are not
+                    e.ch.time_ns = target * 1_000_000_000 + tb.sub_ns;
                     tb.time_s = target;
                 }
+            }
+            OwnStep::Phase(ns) => {
+                let ns = *ns as u64 % 1_000_000_000;
+                let sec = if ns > tb.sub_ns { now } else { now + 1 };
+                tb.time_s = sec;
+                tb.sub_ns = ns;
+                e.ch.time_ns = sec * 1_000_000_000 + ns;
+                subsecond = true;
             }
             OwnStep::Nominate(i, j) => {
                 let (s_from, s_to) = (principal(&ms, &people, *i), principal(&ms, &people, *j));
@@ -232,6 +248,10 @@ pub fn check_own_case(steps: &[OwnStep], agg: &mut Agg) -> Result<(), String> {
                     boundary = true;
                 }
                 let out = e.ch.execute(&s_from, &[], SMsg::AcceptOwnership {});
+                // in the very second of the deadline, once block times carry sub-second parts, an implementation that
+                // keeps the deadline in nanoseconds may still refuse: the outcome is open there (and only there)
+                let open_s = exp_s && subsecond && ms.earliest == Some(now);
+                let exp_s = if open_s { out.ok } else { exp_s };
                 if out.ok != exp_s || out.panic.is_some() {
                     return Err(format!(
                         "step {idx} staking: accept by {s_from} at {now} (nominee {:?}, earliest {:?}) -> ok={} err={:?}",
@@ -247,6 +267,8 @@ pub fn check_own_case(steps: &[OwnStep], agg: &mut Agg) -> Result<(), String> {
                 let t_from = principal(&mt, &people, *i);
                 let exp_t = mt.nominee.as_deref() == Some(t_from.as_str()) && mt.earliest.map(|t| now >= t).unwrap_or(false);
                 let r = tb.exec(&t_from, TMsg::AcceptOwnership {});
+                let open_t = exp_t && subsecond && mt.earliest == Some(now);
+                let exp_t = if open_t { r.is_ok() } else { exp_t };
                 if r.is_ok() != exp_t || matches!(r, Err(Err(_))) {
                     return Err(format!(
                         "step {idx} treasury: accept by {t_from} at {now} (nominee {:?}, earliest {:?}) -> {:?}",
@@ -294,6 +316,9 @@ pub fn check_own_case(steps: &[OwnStep], agg: &mut Agg) -> Result<(), String> {
     if boundary {
         *agg.flags.entry("accept_at_boundary".into()).or_insert(0) += 1;
     }
+    if boundary && subsecond {
+        *agg.flags.entry("accept_at_boundary_with_subsecond_block_times".into()).or_insert(0) += 1;
+    }
     if renominated {
         *agg.flags.entry("renominated_or_revoked".into()).or_insert(0) += 1;
     }
@@ -312,7 +337,13 @@ pub fn check_c12(cases: u64, seed: u64) -> RunOutput {
 
 // ------------------------------------------------------------------ C13
 
-const DENOMS: [&str; 5] = ["uosmo", "utia", "uatom", "ibc/AA", "factory/x/y"];
+/// Denoms of the generated routes.  Real denoms contain '/', so the table is closed under moving a
+/// path segment from one side of a hop to the other (`RESLICE`): two *different* hops whose
+/// "<in>/<out>" renderings coincide.
+const DENOMS: [&str; 9] = ["uosmo", "utia", "uatom", "ibc/AA", "factory/x/y", "factory/x", "y/uosmo", "AA/utia", "ibc"];
+const ND: usize = DENOMS.len();
+/// (din, dout) pairs and their re-sliced partners
+const RESLICE: [((u8, u8), (u8, u8)); 4] = [((4, 0), (5, 6)), ((5, 6), (4, 0)), ((3, 1), (8, 7)), ((8, 7), (3, 1))];
 
 #[derive(Clone, Debug, Serialize, serde::Deserialize)]
 pub struct RouteHop {
@@ -332,6 +363,9 @@ pub enum Candidate {
     Edit(u8, u8, u8),
     Empty,
     Fresh(Vec<RouteHop>),
+    /// an allowed route (searching from i) with one hop replaced by its re-sliced partner: same pools,
+    /// same text when in and out denoms are joined with '/', different denoms
+    Reslice(u8, u8),
 }
 
 #[derive(Clone, Debug, Serialize, serde::Deserialize)]
@@ -361,7 +395,14 @@ pub struct TCase {
 }
 
 fn hop() -> impl Strategy<Value = RouteHop> {
-    (prop_oneof![1u64..4, any::<u64>()], 0u8..5, 0u8..5).prop_map(|(pool, din, dout)| RouteHop { pool, din, dout })
+    {
+    let d = || prop_oneof![5 => 0u8..5, 2 => 5u8..9];
+    prop_oneof![
+        8 => (prop_oneof![1u64..4, any::<u64>()], d(), d()).prop_map(|(pool, din, dout)| RouteHop { pool, din, dout }),
+        // hops whose denoms contain '/' on the side that faces the other denom
+        2 => (1u64..4, 0usize..4).prop_map(|(pool, k)| RouteHop { pool, din: RESLICE[k].0 .0, dout: RESLICE[k].0 .1 }),
+    ]
+}
 }
 fn route() -> impl Strategy<Value = Vec<RouteHop>> {
     prop_oneof![15 => proptest::collection::vec(hop(), 1..5), 1 => Just(vec![])]
@@ -380,6 +421,7 @@ pub fn tcase() -> BoxedStrategy<TCase> {
         4 => (0u8..5, 0u8..4, 0u8..3).prop_map(|(a, b, c)| Candidate::Edit(a, b, c)),
         1 => Just(Candidate::Empty),
         1 => route().prop_map(Candidate::Fresh),
+        2 => (0u8..5, 0u8..4).prop_map(|(a, b)| Candidate::Reslice(a, b)),
     ];
     let who = || prop_oneof![4 => Just(0u8), 3 => Just(1u8), 1 => Just(2u8), 1 => Just(3u8)];
     let coin_denom = || proptest::option::weighted(0.25, 0u8..5);
@@ -403,12 +445,12 @@ pub fn tcase() -> BoxedStrategy<TCase> {
 
 fn to_routes(r: &[RouteHop]) -> Vec<SwapRoute> {
     r.iter()
-        .map(|h| SwapRoute { pool_id: h.pool, token_in_denom: DENOMS[h.din as usize % 5].into(), token_out_denom: DENOMS[h.dout as usize % 5].into() })
+        .map(|h| SwapRoute { pool_id: h.pool, token_in_denom: DENOMS[h.din as usize % ND].into(), token_out_denom: DENOMS[h.dout as usize % ND].into() })
         .collect()
 }
 
 fn same_route(a: &[RouteHop], b: &[RouteHop]) -> bool {
-    a.len() == b.len() && a.iter().zip(b).all(|(x, y)| x.pool == y.pool && x.din % 5 == y.din % 5 && x.dout % 5 == y.dout % 5)
+    a.len() == b.len() && a.iter().zip(b).all(|(x, y)| x.pool == y.pool && x.din as usize % ND == y.din as usize % ND && x.dout as usize % ND == y.dout as usize % ND)
 }
 
 fn build_candidate(c: &Candidate, allowed: &[Vec<RouteHop>]) -> (Vec<RouteHop>, bool) {
@@ -451,13 +493,27 @@ fn build_candidate(c: &Candidate, allowed: &[Vec<RouteHop>]) -> (Vec<RouteHop>, 
             let j = *j as usize % r.len();
             match f % 3 {
                 0 => r[j].pool = r[j].pool.wrapping_add(1),
-                1 => r[j].din = (r[j].din + 1) % 5,
-                _ => r[j].dout = (r[j].dout + 1) % 5,
+                1 => r[j].din = (r[j].din + 1) % ND as u8,
+                _ => r[j].dout = (r[j].dout + 1) % ND as u8,
             }
             (r, true)
         }
         Candidate::Empty => (vec![], true),
         Candidate::Fresh(r) => (r.clone(), false),
+        Candidate::Reslice(i, j) => {
+            for k in 0..allowed.len() {
+                let mut r = allowed[(*i as usize + k) % allowed.len()].clone();
+                let hops: Vec<usize> = (0..r.len()).filter(|h| RESLICE.iter().any(|(a, _)| (r[*h].din % ND as u8, r[*h].dout % ND as u8) == *a)).collect();
+                if !hops.is_empty() {
+                    let h = hops[*j as usize % hops.len()];
+                    let to = RESLICE.iter().find(|(a, _)| (r[h].din % ND as u8, r[h].dout % ND as u8) == *a).unwrap().1;
+                    r[h].din = to.0;
+                    r[h].dout = to.1;
+                    return (r, true);
+                }
+            }
+            build_candidate(&Candidate::Edit(*i, *j, 1), allowed)
+        }
     }
 }
 
@@ -526,13 +582,13 @@ pub fn check_tcase(c: &TCase, agg: &mut Agg) -> Result<(), String> {
                 let end_denom = if r.is_empty() {
                     "none".to_string()
                 } else if exact_in {
-                    DENOMS[r[0].din as usize % 5].to_string()
+                    DENOMS[r[0].din as usize % ND].to_string()
                 } else {
-                    DENOMS[r[r.len() - 1].dout as usize % 5].to_string()
+                    DENOMS[r[r.len() - 1].dout as usize % ND].to_string()
                 };
                 let coin_d = match coin_denom {
                     None => end_denom.clone(),
-                    Some(d) => DENOMS[*d as usize % 5].to_string(),
+                    Some(d) => DENOMS[*d as usize % ND].to_string(),
                 };
                 let want_ok = sender == trader && listed && coin_d == end_denom;
                 let coin = Coin::new(*amount, coin_d.clone());
@@ -580,7 +636,7 @@ pub fn check_tcase(c: &TCase, agg: &mut Agg) -> Result<(), String> {
                         let got_hops: Vec<(u64, String)> = hops.iter().map(|h| (h.uint(1).unwrap_or(u64::MAX), h.string(2).unwrap_or_default())).collect();
                         let want_hops: Vec<(u64, String)> = r
                             .iter()
-                            .map(|h| (h.pool, if exact_in { DENOMS[h.dout as usize % 5].to_string() } else { DENOMS[h.din as usize % 5].to_string() }))
+                            .map(|h| (h.pool, if exact_in { DENOMS[h.dout as usize % ND].to_string() } else { DENOMS[h.din as usize % ND].to_string() }))
                             .collect();
                         let (coin_field, limit_field) = if exact_in { (3, 4) } else { (4, 3) };
                         let got_coin = m.sub(coin_field).flatten().and_then(|c| pb::coin(&c));
@@ -599,7 +655,7 @@ pub fn check_tcase(c: &TCase, agg: &mut Agg) -> Result<(), String> {
             TOp::Spend { who: w, denom, amount, receiver, channel } => {
                 let sender = who(*w, &admin, &trader);
                 let recv = receiver_addr(*receiver);
-                let d = DENOMS[*denom as usize % 5];
+                let d = DENOMS[*denom as usize % ND];
                 let chan = channel.map(|c| format!("channel-{c}"));
                 let dec = bech32_decode(&recv);
                 let hrp_ok = |p: &str| dec.as_ref().map(|d| d.hrp == p).unwrap_or(false);
